@@ -31,6 +31,7 @@ type c18Op struct {
 	Used int32  `json:"used"`
 	Lvl  int32  `json:"lvl"`
 	Wc   bool   `json:"wc"` // the report also carries the global-count item
+	Sat  bool   `json:"sat"` // saturated reporter: usage = the quota it holds, request level 100
 }
 
 type c18Case struct {
@@ -141,6 +142,13 @@ func runC18(raw json.RawMessage) interface{} {
 				ups = append(ups, u)
 			}
 		case "report":
+			if op.Sat {
+				// what a saturated gateway sends: it uses all of the quota it was given last time
+				op.Used, op.Lvl = quota[[2]string{u, i}], 0
+				if op.Used > 0 {
+					op.Lvl = 100
+				}
+			}
 			cond := &proxyv1alpha1.RateLimitCondition{
 				ObjectMeta: metav1.ObjectMeta{Name: limitutil.GenerateRateLimitConditionName(u, i)},
 				Spec: proxyv1alpha1.RateLimitSpec{
